@@ -140,15 +140,18 @@ impl Property for C10 {
                 // neighbours, which count the same component again: the *lower* bound is too
                 // high by at most one per such branch token.
                 if crate::findings::is_open("F-DEPTH-BRANCH", "C10") {
+                    // narrow signature (every manifestation seen on the pinned tree has it): the
+                    // reported range has no upper bound — the branch holds a tree wildcard —, and
+                    // the lower bound is too high by at most one per branch token that contains a
+                    // tree wildcard and has a neighbour
                     let k: usize = case.exprs.iter().map(boundary_branches).max().unwrap_or(0);
                     let lower = match depth {
-                        DepthVariance::Invariant(d) => Some(d),
-                        DepthVariance::Variant(Boundedness::Bounded(r)) => bound(r.lower()),
+                        DepthVariance::Variant(Boundedness::Bounded(r)) if bound(r.upper()).is_none() => bound(r.lower()),
                         _ => None,
                     };
                     if let Some(l) = lower {
                         let n_hi = if p.is_empty() || p == "/" { n + 1 } else { n };
-                        if k > 0 && l > n_hi && l - n_hi <= k && (n..=l).any(|m| ok(m)) {
+                        if k > 0 && l > n_hi && l - n_hi <= k {
                             st.known("F-DEPTH-BRANCH", || format!("{} reports {:?} but matches {:?} ({} components)", text, depth, p, n));
                             continue;
                         }
@@ -167,22 +170,26 @@ impl Property for C10 {
     }
 }
 
-/// number of branch tokens that contain a boundary token and have a neighbour
+/// number of branch tokens that contain a tree wildcard and have a neighbour (a repetition that may
+/// iterate more than once is its own neighbour)
 pub fn boundary_branches(e: &Expr) -> usize {
+    fn has_tree(e: &Expr) -> bool {
+        any_tok(e, &|t, _| matches!(t, Tok::Tree { .. }))
+    }
     fn go(e: &Expr) -> usize {
         let mut n = 0;
         let toks: Vec<&Tok> = e.iter().filter(|t| !t.is_flag()).collect();
         for t in &toks {
             match t {
                 Tok::Alt(bs) => {
-                    if bs.iter().any(|b| any_tok(b, &|t, _| t.is_boundary())) && toks.len() > 1 {
+                    if bs.iter().any(has_tree) && toks.len() > 1 {
                         n += 1;
                     }
                     n += bs.iter().map(go).max().unwrap_or(0);
                 },
-                Tok::Rep { body, hi, lo, .. } => {
-                    if any_tok(body, &|t, _| t.is_boundary()) && (toks.len() > 1 || *hi != Some(1)) {
-                        n += hi.unwrap_or(*lo + 1).max(1);
+                Tok::Rep { body, hi, .. } => {
+                    if has_tree(body) && (toks.len() > 1 || *hi != Some(1)) {
+                        n += 1;
                     }
                     n += go(body);
                 },
